@@ -303,3 +303,5 @@ def shrink(c):
             d[kk] = nv
             out.append(d)
     return out
+
+K1_DEPENDS = ['wire_k1']   # source/runtime tables this property rests on (tools/vlib/runner.py)
